@@ -149,6 +149,8 @@ func runFormat(r *hv.Rand, f *xw.Format, nValues, mutPerValue, nRandom int) {
 			bytesCase(r, f, b, "corpus")
 			if f == xw.Ag {
 				bytesCase(r, xw.ConfDen, b, "corpus")
+				bytesCase(r, xw.IntentReq, b, "corpus")
+				bytesCase(r, xw.IntentComm, b, "corpus")
 			}
 		}
 	}
@@ -175,6 +177,11 @@ func runFormat(r *hv.Rand, f *xw.Format, nValues, mutPerValue, nRandom int) {
 			bytesCase(r, f, m, "mutated")
 			if f == xw.Ag {
 				bytesCase(r, xw.ConfDen, m, "mutated")
+				if r.Chance(25) {
+					bytesCase(r, xw.IntentReq, m, "mutated")
+				} else if r.Chance(33) {
+					bytesCase(r, xw.IntentComm, m, "mutated")
+				}
 			}
 		}
 	}
@@ -487,6 +494,12 @@ func main() {
 		{xw.Exec, hv.Scale(14, 300), 8, hv.Scale(10, 200)},
 		{xw.UserAuth, hv.Scale(14, 300), 6, hv.Scale(10, 200)},
 		{xw.Pf, hv.Scale(16, 400), 7, hv.Scale(10, 200)},
+		// extension round (coq/Model/WireMore.v)
+		{xw.StatusMsg, hv.Scale(10, 300), 6, hv.Scale(8, 100)},
+		{xw.WinSizeMsg, hv.Scale(6, 100), 4, hv.Scale(5, 60)},
+		{xw.ProxyID, hv.Scale(3, 40), 2, hv.Scale(3, 20)},
+		{xw.WinLoop, 0, 0, hv.Scale(6, 60)},
+		{xw.UAReply, 0, 0, hv.Scale(6, 60)},
 	}
 	for _, p := range plans {
 		runFormat(r, p.f, p.nv, p.mut, p.rnd)
@@ -528,10 +541,25 @@ func main() {
 		hv.Emit(hv.Case{Fn: "c18_write_denied", Coq: hv.Tuple(xw.CoqStr(reason), hv.Ni(code), xw.CoqBytes(w.Bytes())), Class: "agmsg/denied",
 			Desc: fmt.Sprintf("WriteIntentDenied reason=%dB", n), Spec: vd.ok, Sig: vd.sig, What: vd.what, NT: true})
 	}
-	// key text forms: Go side only (base64 is outside the Coq model)
-	for k := 0; k < hv.Scale(20, 200); k++ {
-		ok, what := xw.KeyTextRoundTrip(r)
-		hv.Emit(hv.Case{Class: "keys/text", Desc: fmt.Sprintf("key text round trip %d", k), Spec: ok, Sig: "C18:key-text-roundtrip", What: what, NT: true})
+	// Unreliable.ReadMsgUDP: one datagram, caller buffers around its length and around the proxy's 32768
+	for _, n := range []int{0, 1, 100, 32768, 32769, 65523} {
+		msg := xw.Pattern(n, byte(n))
+		for _, c := range []int{0, n - 1, n, n + 1, 32768} {
+			if c < 0 {
+				continue
+			}
+			out, ok, p, pm := xw.UnrelReadCase(msg, c)
+			vd := good()
+			if p {
+				vd = bad("C11:unreliable-read-panics", "Unreliable.ReadMsgUDP panicked on a %d-byte datagram with a %d-byte buffer: %s", n, c, pm)
+			} else if len(out) > c || !bytes.HasPrefix(msg, out) || (ok != (n <= c)) {
+				vd = bad("C18:unreliable-read", "a %d-byte datagram read into a %d-byte buffer gives %d bytes, ok=%v", n, c, len(out), ok)
+			}
+			hv.Emit(hv.Case{Fn: "c18_unrel_read", Coq: hv.Tuple(hv.Ni(c), xw.CoqBytes(msg), xw.CoqBytes(out), hv.B(ok)), Class: "unreliable/read",
+				Desc: fmt.Sprintf("Unreliable.ReadMsgUDP datagram=%dB buffer=%dB", n, c), Spec: vd.ok, Sig: vd.sig, What: vd.what, NT: n > 0})
+		}
 	}
+	// key text forms and base64 (model: coq/Model/WireText.v)
+	keyText(r)
 	hv.Info(map[string]interface{}{"driver": "c18", "formats": len(plans) + 4})
 }
